@@ -253,7 +253,14 @@ def gen_program(D, max_groups=8, kinds=None, want_bias=2):
         doc.append(('Some leading prose.', 'text', -1))
         doc.append(('', 'text', -1))
         feats.add('leading_prose')
+    gind = example_indent          # indentation of the current group relative to the docstring's base indentation
+    may_change = False             # a new chunk starts here (a want or a separator came before): its indentation is free
     for gi, g in enumerate(groups):
+        if gi and may_change and D.chance(1, 4):
+            new = D.choice(['', '    ', '  ', '      '])
+            if new != gind:
+                feats.add('indent_change:' + ('shallower' if len(new) < len(gind) else 'deeper'))
+                gind = new
         out, value, is_expr, exc = pyexec.exec_unit(group_source(g), ns)
         if exc is not None:
             raise AssertionError('generator bug: group {} raised {!r}'.format(g['kind'], exc))
@@ -279,17 +286,17 @@ def gen_program(D, max_groups=8, kinds=None, want_bias=2):
                 want = render_want(since)
                 since = ''
         for ln, fmt, exe in layout_group(g, style, detail=True):
-            doc.append((example_indent + ln if ln else ln, 'src', gi))
+            doc.append((gind + ln if ln else ln, 'src', gi))
             fmt_lines.append(fmt)
             exec_lines.append(exe)
         if want:
             for ln in want:
-                doc.append((example_indent + ln, 'want', gi))
+                doc.append((gind + ln, 'want', gi))
                 fmt_lines.append(ln)
         # separator
         last = gi == len(groups) - 1
         sep = D.choice(['none', 'blank', 'prose', 'blank2', 'dedent_prose'])
-        if sep == 'blank' or (sep == 'dedent_prose' and not (want and example_indent)):
+        if sep == 'blank' or (sep == 'dedent_prose' and not (want and gind)):
             if sep == 'dedent_prose':
                 sep = 'blank'
             doc.append(('', 'text', -1))
@@ -305,6 +312,9 @@ def gen_program(D, max_groups=8, kinds=None, want_bias=2):
             doc.append(('De-indented prose ends the want.', 'text', -1))
             doc.append(('', 'text', -1))
         feats.add('sep:' + sep)
+        may_change = bool(want) or sep != 'none'
+        if want and sep == 'none':
+            feats.add('next_group_directly_after_want')
         feats.add('style:' + style)
         feats.add('kind:' + g['kind'])
         if want:
